@@ -303,3 +303,144 @@ Theorem legacy_refuted :
   valid legacy_witness = true /\ oracle legacy_witness (Legacy.run legacy_witness) = false /\
   Legacy.run legacy_witness = [0; 0; 0; 0; 0].
 Proof. vm_compute. repeat split. Qed.
+
+(* ---------- replayed tokens ---------- *)
+(* the status codes of a run (every second entry; the others are the nonce numbers) *)
+Fixpoint codes (out : list Z) : list Z :=
+  match out with r :: _ :: rest => r :: codes rest | _ => [] end.
+
+(* tokens that are bound to the session nonce they were made for *)
+Definition nonce_bound (t : token) : bool :=
+  match t with
+  | TUser _ _ (Enc _ _ NCur _) => true
+  | TX509 _ _ (Sig _ _ NCur _) => true
+  | _ => false
+  end.
+
+Fixpoint end_state (c : case) (steps : list step) (cur next : Z) (sent : list (token * Z)) : Z * Z * list (token * Z) :=
+  match steps with
+  | [] => (cur, next, sent)
+  | s :: rest =>
+    let r := authenticate c (fst (resolve s cur sent)) (snd (resolve s cur sent)) cur in
+    end_state c rest (if r =? 0 then next else cur) (if r =? 0 then next + 1 else next) (sent ++ [resolve s cur sent])
+  end.
+
+Lemma run_steps_cons c s rest cur next sent :
+  run_steps true c (s :: rest) cur next sent =
+  let r := authenticate c (fst (resolve s cur sent)) (snd (resolve s cur sent)) cur in
+  r :: (if r =? 0 then next else cur) ::
+  run_steps true c rest (if r =? 0 then next else cur) (if r =? 0 then next + 1 else next) (sent ++ [resolve s cur sent]).
+Proof.
+  cbn [run_steps].
+  change (match s with
+          | Fresh t => (t, cur)
+          | Replay j => match nth_sent sent (Z.to_nat j) with Some x => x | None => (TOther, -1) end
+          end) with (resolve s cur sent).
+  destruct (resolve s cur sent) as [t bound]. cbn [fst snd orb]. cbv zeta.
+  destruct (authenticate c t bound cur =? 0); reflexivity.
+Qed.
+
+Lemma run_steps_app c s1 : forall s2 cur next sent,
+  run_steps true c (s1 ++ s2) cur next sent =
+  run_steps true c s1 cur next sent ++
+  run_steps true c s2 (fst (fst (end_state c s1 cur next sent))) (snd (fst (end_state c s1 cur next sent)))
+            (snd (end_state c s1 cur next sent)).
+Proof.
+  induction s1 as [|s rest IH]; intros s2 cur next sent; [reflexivity|].
+  rewrite <- app_comm_cons, !run_steps_cons. cbv zeta. cbn [end_state app]. cbv zeta.
+  rewrite IH. reflexivity.
+Qed.
+
+Lemma codes_run_app c s1 : forall cur next sent X,
+  codes (run_steps true c s1 cur next sent ++ X) = codes (run_steps true c s1 cur next sent) ++ codes X.
+Proof.
+  induction s1 as [|s rest IH]; intros cur next sent X; [reflexivity|].
+  rewrite run_steps_cons. cbv zeta. cbn [app codes]. rewrite IH. reflexivity.
+Qed.
+
+Lemma codes_run_length c s1 : forall cur next sent, length (codes (run_steps true c s1 cur next sent)) = length s1.
+Proof.
+  induction s1 as [|s rest IH]; intros cur next sent; [reflexivity|].
+  rewrite run_steps_cons. cbv zeta. cbn [codes length]. rewrite IH. reflexivity.
+Qed.
+
+(* nonces only move forward; an accepted step moves past every nonce issued before *)
+Lemma end_state_mono c s1 : forall cur next sent, cur < next ->
+  let st := end_state c s1 cur next sent in
+  cur <= fst (fst st) /\ fst (fst st) < snd (fst st) /\ next <= snd (fst st) /\
+  (In 0 (codes (run_steps true c s1 cur next sent)) -> next <= fst (fst st)) /\
+  exists ext, snd st = sent ++ ext /\ length ext = length s1.
+Proof.
+  induction s1 as [|s rest IH]; intros cur next sent Hlt; cbn [end_state]; cbv zeta.
+  - cbn [fst snd run_steps codes In]. split; [lia|]. split; [lia|]. split; [lia|]. split; [intros []|].
+    exists []. rewrite app_nil_r. auto.
+  - rewrite run_steps_cons. cbv zeta. cbn [codes In].
+    set (r := authenticate c (fst (resolve s cur sent)) (snd (resolve s cur sent)) cur).
+    destruct (r =? 0) eqn:Hr.
+    + destruct (IH next (next + 1) (sent ++ [resolve s cur sent]) ltac:(lia)) as [H1 [H2 [H3 [H4 [ext [He Hl]]]]]].
+      split; [lia|]. split; [lia|]. split; [lia|]. split; [intros _; lia|].
+      exists (resolve s cur sent :: ext). rewrite He, <- app_assoc. cbn [app length]. auto.
+    + destruct (IH cur next (sent ++ [resolve s cur sent]) Hlt) as [H1 [H2 [H3 [H4 [ext [He Hl]]]]]].
+      split; [lia|]. split; [lia|]. split; [lia|]. split.
+      * intros [H0|H0]; [apply Z.eqb_neq in Hr; congruence | apply H4; exact H0].
+      * exists (resolve s cur sent :: ext). rewrite He, <- app_assoc. cbn [app length]. auto.
+Qed.
+
+Lemma firstn_app_exact {A} (l1 l2 : list A) : firstn (length l1) (l1 ++ l2) = l1.
+Proof. rewrite firstn_app, Nat.sub_diag, firstn_O, app_nil_r. apply firstn_all. Qed.
+
+Lemma nth_sent_app (sent : list (token * Z)) x ext : nth_sent (sent ++ x :: ext) (length sent) = Some x.
+Proof. induction sent as [|y sent IH]; cbn [app length nth_sent]; [reflexivity | exact IH]. Qed.
+
+Lemma nonce_bound_stale c t bound cur : nonce_bound t = true -> bound <> cur -> authenticate c t bound cur <> 0.
+Proof.
+  intros Hb Hne. destruct t as [|p|p name f|p cert s|p|]; try discriminate.
+  - destruct f as [| | |a pd n pw]; try discriminate. destruct n; [|discriminate]. apply stale_password_rejected. exact Hne.
+  - destruct s as [key sha1 n intact]. destruct n; [|discriminate]. apply stale_x509_rejected. exact Hne.
+Qed.
+
+(* The last sentence of the property, over histories: take ANY history [pre], then a token bound to
+   the nonce of that moment, then ANY further steps [mid], then a replay of that token.  If any
+   activation from the original one on has succeeded, the replay is rejected. *)
+Theorem replay_rejected c pre t mid :
+  nonce_bound t = true ->
+  let steps := pre ++ (Fresh t :: mid) ++ [Replay (Z.of_nat (length pre))] in
+  let cs := codes (run_steps true c steps 0 1 []) in
+  In 0 (firstn (S (length mid)) (skipn (length pre) cs)) ->
+  nth (length pre + S (length mid)) cs 1 <> 0.
+Proof.
+  intros Hb steps cs. subst cs steps.
+  rewrite run_steps_app, codes_run_app.
+  set (st1 := end_state c pre 0 1 []).
+  destruct (end_state_mono c pre 0 1 [] ltac:(lia)) as [_ [Hlt1 [_ [_ [ext1 [He1 Hl1]]]]]]. fold st1 in Hlt1, He1.
+  cbn [app] in He1.
+  rewrite run_steps_app, codes_run_app.
+  set (C1 := codes (run_steps true c pre 0 1 [])).
+  set (C2 := codes (run_steps true c (Fresh t :: mid) (fst (fst st1)) (snd (fst st1)) (snd st1))).
+  assert (HC1 : length C1 = length pre) by apply codes_run_length.
+  assert (HC2 : length C2 = S (length mid)) by (unfold C2; rewrite codes_run_length; reflexivity).
+  rewrite skipn_app, skipn_all2 by lia. rewrite HC1, Nat.sub_diag. cbn [skipn app].
+  match goal with |- In 0 (firstn _ (C2 ++ ?X)) -> _ =>
+    replace (firstn (S (length mid)) (C2 ++ X)) with C2 by (rewrite <- HC2; symmetry; apply firstn_app_exact) end.
+  intro Hacc.
+  rewrite app_nth2 by lia. rewrite HC1. replace (length pre + S (length mid) - length pre)%nat with (S (length mid)) by lia.
+  rewrite app_nth2 by lia. rewrite HC2, Nat.sub_diag.
+  set (st2 := end_state c (Fresh t :: mid) (fst (fst st1)) (snd (fst st1)) (snd st1)).
+  destruct (end_state_mono c (Fresh t :: mid) (fst (fst st1)) (snd (fst st1)) (snd st1) Hlt1) as [_ [_ [_ [Hjump _]]]].
+  fold st2 in Hjump. fold C2 in Hjump. specialize (Hjump Hacc).
+  (* what the replay resolves to: the token with the nonce it was made for *)
+  assert (Hsent : exists ext2, snd st2 = snd st1 ++ (t, fst (fst st1)) :: ext2).
+  { unfold st2. cbn [end_state resolve fst snd]. cbv zeta.
+    match goal with |- context [end_state c mid ?a ?b ?s] =>
+      destruct (a <? b) eqn:Hab;
+      [ destruct (end_state_mono c mid a b s ltac:(apply Z.ltb_lt; exact Hab)) as [_ [_ [_ [_ [ext [He _]]]]]]
+      | exfalso; apply Z.ltb_ge in Hab; revert Hab;
+        destruct (authenticate c t (fst (fst st1)) (fst (fst st1)) =? 0); lia ] end.
+    exists ext. rewrite He, <- app_assoc. reflexivity. }
+  destruct Hsent as [ext2 Hs2].
+  rewrite run_steps_cons. cbv zeta. cbn [codes nth].
+  unfold resolve. rewrite Nat2Z.id, Hs2.
+  replace (length pre) with (length (snd st1)) by (rewrite He1; exact Hl1).
+  rewrite nth_sent_app. cbn [fst snd].
+  apply nonce_bound_stale; [exact Hb | lia].
+Qed.
